@@ -241,14 +241,17 @@ def run(ctx):
            "state of the threaded model; on this forced schedule the real queue does not reach the quiescent state "
            "(for one worker: including the start and finish order) that the model predicts")
     skip_forced = "forced" in ctx.extra.get("skipped_areas", [])
+    # with the real (large) `in` capacity the submitter runs far ahead of the dispatcher and the model's exploration of
+    # all interleavings is several times more expensive: a third of the lines in the fallback build
+    k = 3 if ctx.extra.get("forced_in_capacity_measured") else 1
     if not skip_forced:
-        ctx.diff(area="forced", driver="drv_c15", n={"quick": 6000, "thorough": 200000}, stateful=True,
+        ctx.diff(area="forced", driver="drv_c15", n={"quick": 6000 // k, "thorough": 200000 // k}, stateful=True,
                  trivial=_trivial, tagger=_tag, timeout=1500, theorem=thm, what=what)
     mark("forced")
     # the same stream on a single P (cooperative scheduling: different interleavings of dispatcher, workers, submitter)
     if not ctx.replay and not ctx.violations and not skip_forced:
         ctx.seed += 7777
-        ctx.diff(area="forced", driver="drv_c15", n={"quick": 2000, "thorough": 60000}, stateful=True,
+        ctx.diff(area="forced", driver="drv_c15", n={"quick": 2000 // k, "thorough": 60000 // k}, stateful=True,
                  trivial=_trivial, tagger=lambda l, o: "gomaxprocs1:" + _tag(l, o), timeout=1500, theorem=thm,
                  what=what + " [this stream ran with GOMAXPROCS=1]", extra_env={"GOMAXPROCS": "1"})
         ctx.seed -= 7777
